@@ -1558,4 +1558,40 @@ def r16(F, R):
     R.floor(1)
 
 
-RULES = [("R16", r16, ["all", "libtest"]), ("R15", r15, ["all", "junit"]), ("R14", r14, None), ("R13", r13, None), ("R12", r12, None), ("R11", r11, None), ("R10", r10, ["all", "json"]), ("R9", r9, None), ("R8", r8, ["all", "junit"]), ("R7", r7, ["all", "json"]), ("R6", r6, ["all", "json"]), ("R5", r5, ["all", "junit"]), ("R1", r1, None), ("R2", r2, None), ("R3", r3, None), ("R4", r4, None)]
+def r17(F, R):
+    """Reported durations are whole durations: where a reporter turns a `Duration` into a number it uses a total accessor (`as_nanos`,
+    `as_secs_f64`, ..), never a partial one (`subsec_nanos` / `subsec_micros` / `subsec_millis` drop the whole seconds: a 1150 ms step would be
+    reported as 150 ms).  Expected count zero; at least one total conversion must exist in every reporter that reports durations."""
+    TOTAL = r"Duration::(as_nanos|as_micros|as_millis|as_secs_f64|as_secs_f32|as_millis_f64|as_millis_f32)$"
+    PARTIAL = r"Duration::(subsec_nanos|subsec_micros|subsec_millis)$"
+    n_total = 0
+    seen_mod = set()
+    for b in F.crate_bodies():
+        if not b.name.startswith("writer::") and not b.name.startswith("<writer::"):
+            continue
+        for s_, t in b.calls(lambda t: callee_is(t, TOTAL, PARTIAL)):
+            if callee_is(t, PARTIAL):
+                R.violation(f"whole-durations/{F.root_fn(b).short.rsplit('::', 2)[-2]}::{F.root_fn(b).short.rsplit('::', 1)[-1]}", s_,
+                            f"a reported duration is taken with `{(callee_path(t) or '').rsplit('::', 1)[-1]}`: the whole seconds are dropped from it")
+            else:
+                n_total += 1
+                seen_mod.add(b.name.split("::")[1] if b.name.startswith("writer::") else b.name.split("::")[1])
+        for s_, st in b.assigns():
+            for op in A.rvalue_operands(st["rv"]):
+                f_ = op_fn(op)
+                if f_ and re.search(TOTAL, f_.get("path", "") or ""):
+                    n_total += 1
+                elif f_ and re.search(PARTIAL, f_.get("path", "") or ""):
+                    R.violation(f"whole-durations/{F.root_fn(b).short.rsplit('::', 1)[-1]}", s_, "a reported duration is taken with a `subsec_*` accessor handed to a combinator: the whole seconds are dropped")
+        for s_, t in b.calls():
+            for a in t["args"]:
+                f_ = op_fn(a)
+                if f_ and re.search(PARTIAL, f_.get("path", "") or ""):
+                    R.violation(f"whole-durations/{F.root_fn(b).short.rsplit('::', 1)[-1]}", s_, "a reported duration is taken with a `subsec_*` accessor handed to a combinator: the whole seconds are dropped")
+                elif f_ and re.search(TOTAL, f_.get("path", "") or ""):
+                    n_total += 1
+    R.check(n_total >= 1, "whole-durations/total-conversions", None, f"{n_total} total Duration conversions in the reporters, no partial one", "no Duration conversion found in the reporters")
+    R.floor(1)
+
+
+RULES = [("R17", r17, None), ("R16", r16, ["all", "libtest"]), ("R15", r15, ["all", "junit"]), ("R14", r14, None), ("R13", r13, None), ("R12", r12, None), ("R11", r11, None), ("R10", r10, ["all", "json"]), ("R9", r9, None), ("R8", r8, ["all", "junit"]), ("R7", r7, ["all", "json"]), ("R6", r6, ["all", "json"]), ("R5", r5, ["all", "junit"]), ("R1", r1, None), ("R2", r2, None), ("R3", r3, None), ("R4", r4, None)]
